@@ -91,6 +91,10 @@ func Discharge(o *Obligation, dir string, quickS, slowS int) *Result {
 	r.TimeS += dur
 	if ans == "unsat" || ans == "sat" {
 		r.Answer, r.Solver, r.Output = ans, solvers[0].name, out
+	} else if o.ExpectSat {
+		// cover queries (vacuity guards) get the short limit only: finding a model of a script
+		// with quantifiers is often out of reach, and only a quick `unsat` is informative
+		r.Answer, r.Solver, r.Output = ans, solvers[0].name, out
 	} else {
 		// stage 2: race all three with the long limit
 		type res struct {
